@@ -13,7 +13,7 @@ INSIDE the `ok` payload):
 * `periodic`     `{problem: asset problem, labels:[[dur,per,sub_per]]}` →
                  `{problem: asset problem, out:[j], groups: n, lead:[j], generic: bool}`
                  (`generic`: the result equals `mergeProblem` along the final leader map — the object of `C13.merge_columns`) | `{"err":"assert"|"index"|"chain"}`
-* `extend_minor` `{mapping:[row], coarse:{grid:{pts,idx,dt,Dt,df}, minor:[[i]]}, dt_fine:[r], has_factor: bool}` →
+* `extend_minor` `{mapping:[row], coarse:{grid:{pts,idx,dt,Dt,df}, minor:[[i]]}, dt_fine:[r]}` →
                  `{mapping:[row]}` | `{"err":"index"}`
 -/
 open Lean EAO
@@ -60,8 +60,7 @@ def handlePeriodic (op : String) (j : Json) : Option (Except String Json) :=
     let g ← field cgj "grid" getGrid
     let minor ← field cgj "minor" (getList getNats)
     let dtFine ← field j "dt_fine" getRats
-    let hasFactor ← field j "has_factor" Json.getBool?
-    match extendMinor M { grid := g, minor := minor } dtFine hasFactor with
+    match extendMinor M { grid := g, minor := minor } dtFine with
     | .error _ => pure (Json.mkObj [("err", Json.str "index")])
     | .ok M' => pure (Json.mkObj [("mapping", jList jMapRow M')])
   | _ => throw s!"unknown op {op}"
